@@ -3,6 +3,7 @@ package wm
 import (
 	"fmt"
 	"go/token"
+	"go/types"
 
 	"golang.org/x/tools/go/ssa"
 )
@@ -845,4 +846,47 @@ func outermost(f *ssa.Function) *ssa.Function {
 		f = f.Parent()
 	}
 	return f
+}
+
+// c04FanArgsHandedOver: what Publish hands to the fan-out (which passes it on to goroutines that outlive the call) it
+// does not write afterwards: a map built once per Publish call and updated per message is read by the senders of the
+// earlier messages of the batch while it is written for the later ones.
+func c04FanArgsHandedOver(c *Check, id string, r *GCRoles) {
+	n := 0
+	for _, fn := range r.Funcs {
+		for _, fc := range Callers([]*ssa.Function{fn}, r.Fan) {
+			after := ReachAfter(fc, nil)
+			for _, a := range fc.Common().Args {
+				if _, isMap := a.Type().Underlying().(*types.Map); !isMap {
+					continue
+				}
+				n++
+				srcs := Origins(a)
+				AllInstrs(fn, func(in ssa.Instruction) {
+					var m ssa.Value
+					switch x := in.(type) {
+					case *ssa.MapUpdate:
+						m = x.Map
+					case ssa.CallInstruction:
+						for _, b := range []string{"delete", "clear"} {
+							if args, ok := IsBuiltinCall(valueOfCall(x), b); ok && len(args) > 0 {
+								m = args[0]
+							}
+						}
+					}
+					if m == nil || !after[in] {
+						return
+					}
+					for _, o := range Origins(m) {
+						for _, s := range srcs {
+							if o == s {
+								c.Report(false, id, "HANDED-TO-THE-FAN-OUT-NOT-WRITTEN-AGAIN", fn, in.Pos(), "write to a map passed to the fan-out", "a map handed to the fan-out is not written after the hand-over (the senders started for it still read it)")
+							}
+						}
+					}
+				})
+			}
+		}
+	}
+	c.Report(true, id, "FAN-OUT-ARGUMENTS-SCANNED", r.Fan, r.Fan.Pos(), "fan-out", fmt.Sprintf("%d map arguments handed to the fan-out examined", n))
 }
